@@ -44,9 +44,9 @@ def encFiles : List FileE → Bytes
   | [] => []
   | f :: fs => encFile f ++ encFiles fs
 
-/-- One tracked variable: `update(None); update(name); update(value)` -/
+/-- One tracked variable: `update(name); update(value)` -/
 def encEnv (e : Bytes × Option Bytes) : Bytes :=
-  wNone ++ (wStr e.1 ++ (match e.2 with | some v => wStr v | none => wNone))
+  wStr e.1 ++ (match e.2 with | some v => wStr v | none => wNone)
 
 def encEnvs : List (Bytes × Option Bytes) → Bytes
   | [] => []
